@@ -107,7 +107,14 @@ fn check_string(s: &String) -> CaseOutcome
             Ok(e) => e,
             Err(m) =>
             {
-                o.fail("panic", format!("the parser panicked on {:?}: {}", code, m));
+                if crate::hook::is_timeout(&m)
+                {
+                    o.inconclusive = Some(m);
+                }
+                else
+                {
+                    o.fail("panic", format!("the parser panicked on {:?}: {}", code, m));
+                }
                 return o;
             },
         };
@@ -349,7 +356,8 @@ pub fn run(env: &Env, rec: &Recorder) -> (String, Vec<&'static str>)
             match crate::hook::find(&r.text, false, &cfg.macro_pairs())
             {
                 Ok(entries) => o.deviations = model_check::check_entries(&r, cfg, &entries),
-                Err(m) => o.fail("panic", format!("the parser panicked: {}", m)),
+                Err(m) if crate::hook::is_timeout(&m) => o.inconclusive = Some(m),
+            Err(m) => o.fail("panic", format!("the parser panicked: {}", m)),
             }
             for s in &r.stmts
             {
